@@ -3,25 +3,29 @@ PROP = dict(
         pkg="c13", level="fault_enumeration",
         technique=("crash-point enumeration over generated input scripts: the real driver.Driver + real tendermint state machine + real "
                    "walstore run in a testing/synctest bubble (virtual time, deterministic schedule), are killed before/after every effect, "
-                   "restarted on the crash image and compared with driver-less reference state machines"),
+                   "restarted on the crash image (and killed again while recovering) and compared with driver-less reference state machines"),
         level_text=("Fault enumeration: for every generated script the uncrashed run's effects (log append, flush, prune, each broadcast, timer "
                     "arming, commit callback) are numbered and the run is repeated and killed before and after EVERY effect (thorough; quick: "
                     "<= 10 drawn points per script, half of them non-trivial) and stopped in an orderly way before every script position; a new "
                     "driver + state machine is started on the crash image at (last completed commit)+1 and fed the rest of the script, with "
-                    "delivered-but-not-durable inputs re-delivered or lost by draw. Oracles: no two different proposals/prevotes/precommits per "
-                    "(height, round) across the crash; no appended-but-unflushed input at any broadcast or commit; replay = exactly the flushed "
-                    "entries of unpruned heights in order; decisions during replay = decisions taken on the same inputs before the crash; a state "
-                    "machine rebuilt from the durable log answers a probe battery like one that processed the same inputs uncrashed; the recovered "
-                    "driver's broadcasts/commits = those of a driver-less reference machine; commits consecutive from the resume height and equal "
-                    "to the uncrashed run's. The crash space per script is enumerated exhaustively; scripts are sampled, so absence of defects is "
-                    "shown for the enumerated (script, point) pairs only."),
+                    "delivered-but-not-durable inputs re-delivered or lost by draw; the recovering process is killed as well at a drawn effect "
+                    "(every experiment in the thorough tier, 30 % in quick) and recovered again. Oracles: no two different proposals/prevotes/"
+                    "precommits per (height, round) across all process lifetimes; no appended-but-unflushed input at any broadcast or commit; the "
+                    "log after restart = the flushed records; replay = exactly the flushed entries of unpruned heights in order; decisions during "
+                    "replay = decisions taken when the same entries were first processed; a state machine rebuilt from the durable log answers a "
+                    "probe battery like one that processed the same inputs uncrashed; the recovered driver's broadcasts/commits and final state = "
+                    "those of a driver-less reference machine; commits consecutive from the resume height and equal to the uncrashed run's; a "
+                    "start record carries the started height. The crash space per script is enumerated exhaustively for the first kill; scripts "
+                    "and second kills are sampled, so absence of defects is shown for the enumerated (script, point) pairs only."),
         rule=("TestPropCrashRecovery: drawn node index, proposer table, per-(height,step,round) timer table (fires 0-3 script positions after "
               "arming, or never), script for 1-3 heights of proposals/prevotes/precommits of the 3 other validators (agreeing, nil, split and "
               "polka-without-commit rounds, re-proposals with valid round, invalid values, duplicates, equivocation, overtaking future-round "
               "messages, next-height messages arriving early); application values fresh-per-call (70 %, redirected to reproducible values while "
-              "c13-proposer-value-not-logged is listed) or reproducible. Non-trivial = the kill lies between a Flush and the broadcast/commit it "
-              "covers, between OnCommit and the prune flush, or while the node is proposer of its current round. Distinct = SHA-256 of script, "
-              "tables and chosen points. info.crash-points counts kill/stop experiments. TestKnown...: deterministic witness of the listed finding."),
+              "c13-proposer-value-not-logged is listed) or reproducible; while c13-start-entry-aliases-height is listed the second non-nil "
+              "precommit for a height the node has not reached is delayed. Non-trivial = the kill lies between a Flush and the broadcast/commit "
+              "it covers, between OnCommit and the prune flush, while the node is proposer of its current round, or the second kill hits the "
+              "replay. Distinct = SHA-256 of script, tables and chosen points. info.crash-points counts process restarts checked. "
+              "TestRaceCrashRecovery: same body under -race (thorough tier). TestKnown...: deterministic witnesses of the two listed findings."),
         assumptions=["a kill loses exactly what walstore has not flushed: records appended with SetWALEntry live in process memory; a completed Flush is durable "
                      "and atomic (C14 checks torn/corrupted tails of the log file itself)",
                      "the chain height after a restart is (last height whose OnCommit returned true); OnCommit is atomic (persisted or not)",
@@ -29,6 +33,7 @@ PROP = dict(
                      "a third non-nil precommit for one (height, round, id) above the node's height is delayed until the node reaches that height "
                      "(the block-sync path needs a real p2p BlockFetcher and is out of scope)",
                      "the observing proxy in front of the state machine forwards every call unchanged; Application.Valid is a pure predicate that survives restarts",
-                     "one crash per experiment (a crash during recovery is not enumerated)"],
-        runs=[dict(run="^Test(Prop|Known)")],
+                     "virtual time: a timer fires at the drawn script position; Go-runtime interleavings inside one bubble are those synctest produces",
+                     "at most two kills per experiment"],
+        runs=[dict(run="^Test(Prop|Known)"), dict(run="^TestRace", race=True, thorough_only=True)],
     )
